@@ -18,39 +18,13 @@
 (* "r:<regex>" (regex level); LevelMatch is the match table (the harness   *)
 (* checks once that std::regex_match agrees with it).                      *)
 (***************************************************************************)
-EXTENDS Naturals, Sequences, FiniteSets
-CONSTANTS Names,        \* level names used in subscription keys, e.g. {"a","b"}
-          MaxDepth,     \* longest key
-          MaxSubs,
+EXTENDS RouterOps      \* Names (level names used in subscription keys) and MaxDepth (longest key) are declared there
+CONSTANTS MaxSubs,
           NotifyPats, ShrinkPats, Probes
 VARIABLES nodes, subj, obs, nid, ex, dp, nf,
           shrinkOK     \* ghost: the last step, if it was a shrink, met the C13 obligations (evaluated once per Shrink step)
 vars == <<nodes, subj, obs, nid, ex, dp, nf, shrinkOK>>
 
-Keys == UNION {[1..n -> Names] : n \in 1..MaxDepth}
-LevelMatch(l, name) ==
-    CASE l = "r:.*" -> TRUE
-      [] l = "r:a" -> name = "a"
-      [] l = "r:a|b" -> name \in {"a", "b"}
-      [] l = "r:[^a]" -> name # "a"
-      [] l = "r:c" -> name = "c"
-      [] OTHER -> l = name
-IsRegex(l) == l \in {"r:.*", "r:a", "r:a|b", "r:[^a]", "r:c"}
-\* a key matches a pattern iff it has as many levels and matches level by level
-Matches(k, p) == Len(k) = Len(p) /\ \A i \in 1..Len(k) : LevelMatch(p[i], k[i])
-IsPrefix(a, b) == Len(a) <= Len(b) /\ \A i \in 1..Len(a) : a[i] = b[i]
-Prefixes(k) == {SubSeq(k, 1, n) : n \in 1..Len(k)}
-Children(S, n) == {c \in S : Len(c) = Len(n) + 1 /\ IsPrefix(n, c)}
-ObsAt(o, k) == SelectSeq(o, LAMBDA e : e.key = k)
-Ids(o) == {o[i].id : i \in 1..Len(o)}
-
-(* ---- queries ---- *)
-AllNodes(S) == S \cup {<<>>}
-Exists(S, p) == \E k \in AllNodes(S) : Matches(k, p)
-MaxLen(S) == IF S = {} THEN 0 ELSE CHOOSE n \in 0..MaxDepth : (\E k \in S : Len(k) = n) /\ \A k \in S : Len(k) <= n
-Depth(S) == 1 + MaxLen(S)
-Matched(S, sj, p) == {k \in AllNodes(S) : Matches(k, p) /\ k \in sj}
-Deliver(S, sj, o, p) == {o[i].id : i \in {j \in 1..Len(o) : o[j].valid /\ o[j].key \in Matched(S, sj, p)}}
 Derived(S, sj, o) == /\ ex' = [q \in Probes |-> Exists(S, q)]
                      /\ dp' = Depth(S)
                      /\ nf' = [q \in NotifyPats |-> <<Deliver(S, sj, o, q), Cardinality(Matched(S, sj, q))>>]
@@ -76,19 +50,6 @@ Notify(p) == /\ p \in NotifyPats
                 /\ obs' = SelectSeq(obs, LAMBDA e : e.valid \/ e.key \notin M)
              /\ UNCHANGED <<nodes, subj, nid>> /\ Derived(nodes, subj, obs') /\ NotShrink
 
-(* ---- shrink(), transcribed from SubjectRouter.cpp: recurse along the pattern, then erase empty children ---- *)
-NodeEmpty(S, o, c) == ObsAt(o, c) = <<>> /\ Children(S, c) = {}
-RECURSIVE Visit(_, _, _, _, _)
-\* S: current node set; n: node being visited; i: its level in the pattern (0 = root)
-Visit(S, o, p, n, i) ==
-    IF i > 0 /\ ~LevelMatch(p[i], n[Len(n)]) THEN S
-    ELSE LET cand == IF i >= Len(p) THEN {}
-                     ELSE IF IsRegex(p[i + 1]) THEN Children(S, n)
-                     ELSE {c \in Children(S, n) : c[Len(c)] = p[i + 1]}
-             \* the visits below different children touch disjoint subtrees
-             vis == [c \in cand |-> Visit(S, o, p, c, i + 1)]          \* one recursive visit per child
-             S1 == {k \in S : \A c \in cand : IsPrefix(c, k) => k \in vis[c]}
-         IN S1 \ {c \in Children(S1, n) : NodeEmpty(S1, o, c)}
 LiveBelow(o, k) == \E i \in 1..Len(o) : IsPrefix(k, o[i].key)
 FullWildcard(p) == Len(p) >= MaxDepth /\ \A j \in 1..Len(p) : p[j] = "r:.*"
 \* C13: shrink never changes what any later notify delivers, never removes a key with a subscription at or
